@@ -488,3 +488,11 @@ Lemma legacy_variant_order : legacy_variant_names = LEGACY_VARIANTS /\
 Proof. split; reflexivity. Qed.
 Lemma header_written : forall w, firstn 5 (serialize_wire w) = DAT_MAGIC ++ [V0_VERSION_BYTE].
 Proof. reflexivity. Qed.
+
+(* hypotheses of wire_fixpoint are satisfiable: the example's wire value is well-formed and
+   consistent with the empty tag set *)
+Example ex_wire_wf : wire_wf ex_css (to_wire ex_css ex_blocker1 ex_cosmetic1).
+Proof. apply to_wire_wf. exact ex_cosmetic_wf. Qed.
+Example ex_tagged_consistent :
+  tagged_consistent (fun _ _ => []) [] (to_wire ex_css ex_blocker1 ex_cosmetic1).
+Proof. reflexivity. Qed.
